@@ -15,6 +15,9 @@ theorem nfToInternal_eq (r : Res Val) : nfToInternal r =
 /-- The next fault of method `m` after one more call of it. -/
 def Replica.faultNext (r : Replica) (m : Meth) : Option Code := r.script m (r.cnt m + 1)
 
+theorem Quiet.faultNext {p : Pair} (h : Quiet p) (s : Side) (m : Meth) : (p.rep s).faultNext m = none :=
+  h s m _ (Nat.le_succ _)
+
 theorem faultAt_bump (r : Replica) (m m' : Meth) :
     (r.bump m).faultAt m' = if m' = m then r.faultNext m else r.faultAt m' := by
   unfold Replica.faultAt Replica.faultNext
@@ -99,14 +102,14 @@ theorem stage2c_eq (st : Strat) (p : Pair) (f : Side) (k : Key) (n : Nat) :
   unfold replComposite stage2c
   cases st with
   | noop =>
-    simp only [getcOn_snd, rep_setRep_other, rep_round]
+    simp only [getcOn_snd, rep_setRep_other]
     cases (p.rep f.other).faultAt .getc with
     | some c2 => by_cases h : c2 = nf <;> simp [h, Err.wrap]
     | none => cases (p.rep f.other).store k <;> simp [nf]
   | «local» =>
     show (match (replComposite .local _ _ _ _).2 with | .ok v => _ | .error e => _) = _
     simp only [replComposite_local_snd, localMultiple_single_snd, localMultiple_single_fst, getcOn_snd,
-      getOn_snd, getOn_fst, putOn_snd, putOn_fst, rep_setRep_other, rep_setRep_other', rep_round,
+      getOn_snd, getOn_fst, putOn_snd, putOn_fst, rep_setRep_other, rep_setRep_other',
       rep_setRep_same, putRep_faultAt, putRep_cnt, faultAt_bump, cnt_bump, reduceCtorEq, if_false, if_true]
     cases hp : (p.rep f).faultAt .put with
     | some c3 => by_cases h : c3 = nf <;> simp [h, Err.wrap]
@@ -269,16 +272,25 @@ theorem getc_store (c : Cfg) (p : Pair) (k : Key) (t : Side) (k' : Key) :
   · simp only [h]
     exact congrFun (store_setRep_bump { p with round := p.round + 1 } (firstSide p) t .getc) k'
 
-/-- The error stems from a call of this operation that was made to fail: its
-origin is call `i` of method `m` on replica `s`, `i` is the next or the next
-but one call of that method, the script fails that call, and the error carries
-the script's code (or INTERNAL, when the script said NOT_FOUND where NOT_FOUND
-is not acceptable). -/
+/-- The error stems from a call that was made to fail: its origin is call `i`
+of method `m` on replica `s`, that call had not been made yet in state `p`, the
+script fails it, and the error carries the script's code (or INTERNAL, when the
+script said NOT_FOUND where NOT_FOUND is not acceptable). -/
 def Err.fromFault (p : Pair) (e : Err) : Prop :=
   match e.origin with
-  | .fault s m i => ((p.rep s).cnt m ≤ i ∧ i ≤ (p.rep s).cnt m + 1) ∧
+  | .fault s m i => (p.rep s).cnt m ≤ i ∧
       ∃ c', (p.rep s).script m i = some c' ∧ (e.code = c' ∨ (c' = nf ∧ e.code = internal))
   | .absent _ _ => False
+
+theorem Err.fromFault_of_adv {p q : Pair} {e : Err} (a : Adv p q) (h : e.fromFault q) : e.fromFault p := by
+  unfold Err.fromFault at *
+  cases ho : e.origin with
+  | absent s k => simp [ho] at h
+  | fault s m i =>
+    simp only [ho] at h ⊢
+    exact ⟨Nat.le_trans (a.cnt s m) h.1, by rw [← a.script s]; exact h.2⟩
+
+theorem Err.fromFault_wrap {p : Pair} {e : Err} (t : Tag) (h : e.fromFault p) : (e.wrap t).fromFault p := h
 
 def saidNFc (p : Pair) (s : Side) (k : Key) : Prop :=
   match (p.rep s).faultAt .getc with
